@@ -217,6 +217,10 @@ def gammas(run):
     for ind in ("lead", "nbsp"):
         for nrow in ((5,) if quick else (4, 6, 9)):
             out.append(({"strategy": "plain", "nrow": nrow, "header": "explicit", "heights": [1, 2], "indent_wrap": ind}, 4 if quick else 5))
+    # second lines needed by FEW WIDE glyphs (W, M): extent just past the line, character count far below an average-glyph capacity
+    for nrow in ((5, 10) if quick else (4, 5, 6, 9, 10)):
+        for hm in ("explicit", "default"):
+            out.append(({"strategy": "plain", "nrow": nrow, "header": hm, "heights": [1, 2], "wide_fill": True}, 4 if quick else 5))
     # page_by
     for L in (1, 2, 3):
         for nrow in ((4, 6) if quick else (3, 4, 5, 6, 8, 12)):
